@@ -131,7 +131,7 @@ func (this *ETHHandler) SyncBlockHeader(native *native.NativeService) error {
 		3. current time
 		*/
 		// verify whether current height is parent height plus one
-		if header.Number.Uint64() != parentHeader.Number.Uint64()+1 {
+		if !header.Number.IsUint64() || header.Number.Uint64() != parentHeader.Number.Uint64()+1 {
 			return fmt.Errorf("SyncBlockHeader, invalid header height:%d parent height:%d", header.Number.Uint64(), parentHeader.Number.Uint64())
 		}
 		//verify whether parent hash validity
